@@ -33,14 +33,58 @@ func newCompactWorld(specs []*fspec, goroutines int) (b6.World, error) {
 const (
 	bkBasic = iota
 	bkCompact
+	bkStaticOverlay // ingest.NewOverlayWorld(points re-declared in an upper basic world, basic world)
+	bkFrozenMutable // a BasicMutableWorld that is no longer edited
+	bkFrozenOverlay // a MutableOverlayWorld (some features re-added into its overlay) that is no longer edited
 	bkCount
 )
 
-var baseKindNames = []string{"basic base", "compact base"}
+var baseKindNames = []string{"basic base", "compact base", "OverlayWorld base", "BasicMutableWorld base", "MutableOverlayWorld base"}
 
+// newBaseWorld builds a world holding exactly specs, in one of the shapes a
+// mutable overlay can be laid over.
 func newBaseWorld(kind int, specs []*fspec) (b6.World, error) {
-	if kind == bkCompact {
+	switch kind {
+	case bkCompact:
 		return newCompactWorld(specs, 1)
+	case bkStaticOverlay:
+		lower, err := newBasicWorld(specs)
+		if err != nil {
+			return nil, err
+		}
+		var upper []*fspec
+		for i, s := range specs {
+			if s.ID.Type == b6.FeatureTypePoint && i%3 == 0 {
+				upper = append(upper, s)
+			}
+		}
+		uw, err := newBasicWorld(upper)
+		if err != nil {
+			return nil, err
+		}
+		return ingest.NewOverlayWorld(uw, lower), nil
+	case bkFrozenMutable:
+		m := ingest.NewBasicMutableWorld()
+		for _, f := range buildAll(specs) {
+			if err := m.AddFeature(f); err != nil {
+				return nil, fmt.Errorf("BasicMutableWorld.AddFeature(%s): %v", f.FeatureID(), err)
+			}
+		}
+		return m, nil
+	case bkFrozenOverlay:
+		lower, err := newBasicWorld(specs)
+		if err != nil {
+			return nil, err
+		}
+		o := ingest.NewMutableOverlayWorld(lower)
+		for i, s := range specs {
+			if i%4 == 1 {
+				if err := o.AddFeature(s.build()); err != nil {
+					return nil, fmt.Errorf("MutableOverlayWorld.AddFeature(%s): %v", s.ID, err)
+				}
+			}
+		}
+		return o, nil
 	}
 	return newBasicWorld(specs)
 }
